@@ -42,27 +42,27 @@ theorem dedupe_id_of_nodup {α : Type} (l : AList α) (h : (keys l).Nodup) : ded
     `dedupe (fields(m₁) ++ … ++ fields(mₖ) ++ own)` and the friend list
     `friends(m₁) ++ … ++ friends(mₖ) ++ own`, where `fields(m)`/`friends(m)` are the *concatenations*
     computed by `flatMacro` (the de-duplication that `include_macro` performs per macro is invisible). -/
-theorem macro_fields_spec (f : Nat) (ms : AList RMacro) (t : RTemplate) (r : PTemplate)
-    (h : pTemplate (f + 1) ms t = .ok r) :
+theorem macro_fields_spec (f : Nat) (ms : AList RMacro) (exp : List String) (t : RTemplate) (r : PTemplate)
+    (h : pTemplate (f + 1) ms exp t = .ok r) :
     ∃ incs own ofr,
-      mapE (fun n => flatMacro f ms [] n) t.incl = .ok incs ∧
-      mapE (pField f ms) t.fields = .ok own ∧
-      mapE (fun s => pStmt f ms s) t.friends = .ok ofr ∧
+      mapE (fun n => flatMacro f ms exp [] n) t.incl = .ok incs ∧
+      mapE (pField f ms exp) t.fields = .ok own ∧
+      mapE (fun s => pStmt f ms exp s) t.friends = .ok ofr ∧
       r = .mk t.table t.attrs (dedupe ((concatIncl incs).1 ++ own)) ((concatIncl incs).2 ++ ofr) := by
   rw [pTemplate_succ] at h
-  have e1 : (fun n => includeMacro f ms [] n) = (fun n => (flatMacro f ms [] n).map dedupeIncl) :=
-    funext (fun n => includeMacro_eq_flat f ms [] n)
+  have e1 : (fun n => includeMacro f ms exp [] n) = (fun n => (flatMacro f ms exp [] n).map dedupeIncl) :=
+    funext (fun n => includeMacro_eq_flat f ms exp [] n)
   rw [e1, mapE_map_ok] at h
-  cases h1 : mapE (fun n => flatMacro f ms [] n) t.incl with
+  cases h1 : mapE (fun n => flatMacro f ms exp [] n) t.incl with
   | error e => rw [h1] at h; cases h
   | ok incs =>
     rw [h1] at h
     simp only [Except.map] at h
-    cases h2 : mapE (pField f ms) t.fields with
+    cases h2 : mapE (pField f ms exp) t.fields with
     | error e => rw [h2] at h; cases h
     | ok own =>
       rw [h2] at h
-      cases h3 : mapE (fun s => pStmt f ms s) t.friends with
+      cases h3 : mapE (fun s => pStmt f ms exp s) t.friends with
       | error e => rw [h3] at h; cases h
       | ok ofr =>
         rw [h3] at h
@@ -72,15 +72,15 @@ theorem macro_fields_spec (f : Nat) (ms : AList RMacro) (t : RTemplate) (r : PTe
 
 /-- what one macro contributes: the contributions of its own inclusions, in order, then its own
     fields / friends (recursively for nested macros) -/
-theorem macro_contribution_concat (f : Nat) (ms : AList RMacro) (ps : List String) (n : String) (m : RMacro)
+theorem macro_contribution_concat (f : Nat) (ms : AList RMacro) (exp ps : List String) (n : String) (m : RMacro)
     (incs : List Incl) (own : AList PDef) (ofr : List PStmt)
-    (hl : ms.lookup n = some m) (hc : ps.contains n = false)
-    (h1 : mapE (fun x => flatMacro f ms (ps ++ [n]) x) m.incl = .ok incs)
-    (h2 : mapE (pField f ms) m.fields = .ok own)
-    (h3 : mapE (fun s => pStmt f ms s) m.friends = .ok ofr) :
-    flatMacro (f + 1) ms ps n = .ok ((concatIncl incs).1 ++ own, (concatIncl incs).2 ++ ofr) := by
+    (hl : ms.lookup n = some m) (hc : exp.contains n = false) (hp : ps.contains n = false)
+    (h1 : mapE (fun x => flatMacro f ms (exp ++ [n]) (ps ++ [n]) x) m.incl = .ok incs)
+    (h2 : mapE (pField f ms (exp ++ [n])) m.fields = .ok own)
+    (h3 : mapE (fun s => pStmt f ms (exp ++ [n]) s) m.friends = .ok ofr) :
+    flatMacro (f + 1) ms exp ps n = .ok ((concatIncl incs).1 ++ own, (concatIncl incs).2 ++ ofr) := by
   rw [flatMacro, hl]
-  simp only [hc, Bool.false_eq_true, if_false, h1, h2, h3]
+  simp only [cycleErr, hc, hp, Bool.not_false, Bool.and_false, Bool.false_eq_true, if_false, h1, h2, h3]
 
 /-- **override order** — in the expanded template every field name occurs once; the names stand in the
     order of their first occurrence in `macro fields ++ own fields`; the template's own definition
@@ -113,25 +113,25 @@ example :
     `include: m₁, …` parses to the same result as the template without `include:` whose raw field
     list is `rawfields(m₁) ++ … ++ own` and whose raw friend list is `rawfriends(m₁) ++ … ++ own`
     (`rawMacro`: recursively for nested macros), *before* de-duplication. -/
-theorem macro_inline_equiv (f : Nat) (ms : AList RMacro) (t : RTemplate) (r : PTemplate)
-    (h : pTemplate (f + 1) ms t = .ok r) :
-    ∃ raws, mapE (fun n => rawMacro f ms [] n) t.incl = .ok raws ∧
-      pTemplate (f + 1) ms
+theorem macro_inline_equiv (f : Nat) (ms : AList RMacro) (exp : List String) (t : RTemplate) (r : PTemplate)
+    (h : pTemplate (f + 1) ms exp t = .ok r) :
+    ∃ raws, mapE (fun n => rawMacro f ms exp [] n) t.incl = .ok raws ∧
+      pTemplate (f + 1) ms exp
         (.mk t.table t.attrs [] (raws.flatMap (·.1) ++ t.fields) (raws.flatMap (·.2) ++ t.friends)) = .ok r := by
   cases t with
   | mk table attrs incl fields friends =>
-  obtain ⟨incs, own, ofr, h1, h2, h3, hr⟩ := macro_fields_spec f ms _ r h
+  obtain ⟨incs, own, ofr, h1, h2, h3, hr⟩ := macro_fields_spec f ms exp _ r h
   simp only [RTemplate.incl, RTemplate.fields, RTemplate.friends, RTemplate.table, RTemplate.attrs] at h1 h2 h3 hr ⊢
-  obtain ⟨raws, k1, k2⟩ := mapE_forall2 (fun n => flatMacro f ms [] n) (fun n => rawMacro f ms [] n)
-    (fun raw inc => mapE (pField f ms) raw.1 = .ok inc.1 ∧ mapE (fun s => pStmt f ms s) raw.2 = .ok inc.2)
+  obtain ⟨raws, k1, k2⟩ := mapE_forall2 (fun n => flatMacro f ms exp [] n) (fun n => rawMacro f ms exp [] n)
+    (fun raw inc => mapE (pField f ms exp) raw.1 = .ok inc.1 ∧ mapE (fun s => pStmt f ms exp s) raw.2 = .ok inc.2)
     incl incs
     (fun x _ r hx => by
-      obtain ⟨raw, g1, g2, g3⟩ := flatMacro_eq_parse_raw ms f [] x r hx
+      obtain ⟨raw, g1, g2, g3⟩ := flatMacro_eq_parse_raw ms f exp [] x r hx
       exact ⟨raw, g1, g2, g3⟩) h1
   refine ⟨raws, k1, ?_⟩
-  have hF : mapE (pField f ms) (raws.flatMap (·.1)) = .ok (incs.flatMap (·.1)) :=
+  have hF : mapE (pField f ms exp) (raws.flatMap (·.1)) = .ok (incs.flatMap (·.1)) :=
     mapE_flatMap_of_forall2 _ _ _ _ _ (k2.imp (fun _ _ hp => hp.1))
-  have hS : mapE (fun s => pStmt f ms s) (raws.flatMap (·.2)) = .ok (incs.flatMap (·.2)) :=
+  have hS : mapE (fun s => pStmt f ms exp s) (raws.flatMap (·.2)) = .ok (incs.flatMap (·.2)) :=
     mapE_flatMap_of_forall2 _ _ _ _ _ (k2.imp (fun _ _ hp => hp.2))
   rw [pTemplate_succ]
   simp only [RTemplate.incl, RTemplate.fields, RTemplate.friends, RTemplate.table, RTemplate.attrs, mapE,
@@ -139,97 +139,85 @@ theorem macro_inline_equiv (f : Nat) (ms : AList RMacro) (t : RTemplate) (r : PT
   rw [h2, h3]
   simp only [hr, concatIncl, List.flatMap_nil, List.nil_append]
 
-/-- **macro_expansion_terminates** — the inclusion chain is bounded by the cycle check: if the own
-    fields and friends of every macro parse within fuel `D` (e.g. they contain no template that itself
-    includes macros), then `include_macro` never runs out of fuel `D + #macros + 1`, for every macro
-    table — however the `include:` lines refer to each other: a cyclic chain ends in
-    `Err.macroCycle`, an unknown name in `Err.noMacro`. -/
-theorem macro_expansion_terminates (ms : AList RMacro) (D : Nat)
-    (hbody : ∀ name m, ms.lookup name = some m →
-      (∃ own, mapE (pField D ms) m.fields = .ok own) ∧ (∃ ofr, mapE (fun s => pStmt D ms s) m.friends = .ok ofr))
-    (n : String) (f : Nat) (hf : D + (keys ms).length + 1 ≤ f) :
-    includeMacro f ms [] n ≠ .error .fuel :=
-  includeMacro_chain_no_fuel ms D hbody (keys ms).length [] n f List.nodup_nil (by simp) (by simp) hf
+/-- **macro_expansion_terminates** (full strength since the repair of D46) — for *every* macro table
+    and every template, expansion ends within fuel `#macros · (deepest macro body + 2) + depth + 2`:
+    it succeeds or reports a recipe error (`noMacro`, `macroCycle`, `macroNested`), however the macros
+    refer to each other — through `include:` lines, friends or object-valued fields. -/
+theorem macro_expansion_terminates (ms : AList RMacro) (t : RTemplate) (f : Nat)
+    (hf : (keys ms).length * (maxBody ms + 2) + dTemplate t + 2 ≤ f) :
+    pTemplate f ms [] t ≠ .error .fuel :=
+  (expansion_no_fuel ms f [] List.nodup_nil (by simp)).2.2.1 t (by simpa using hf)
 
-/-- the cycle check does fire: `m` includes `n` includes `m` is a recipe error for every fuel ≥ 3 -/
+/-- … and so does every statement of a recipe -/
+theorem statement_expansion_terminates (ms : AList RMacro) (s : RStmt) (f : Nat)
+    (hf : (keys ms).length * (maxBody ms + 2) + dStmt s + 2 ≤ f) :
+    pStmt f ms [] s ≠ .error .fuel :=
+  (expansion_no_fuel ms f [] List.nodup_nil (by simp)).2.1 s (by simpa using hf)
+
+/-- **macro_cycle_is_error** — a macro that is already being expanded is never expanded again: reaching
+    it through the chain of `include:` lines is `macroCycle`, reaching it any other way (a friend or an
+    object-valued field of a macro under expansion) is `macroNested`. -/
+theorem macro_cycle_is_error (f : Nat) (ms : AList RMacro) (exp ps : List String) (n : String) (m : RMacro)
+    (hl : ms.lookup n = some m) (he : n ∈ exp) :
+    includeMacro (f + 1) ms exp ps n =
+      .error (if ps.contains n then .macroCycle ps n else .macroNested n) := by
+  rw [includeMacro_succ, hl]
+  have hc : exp.contains n = true := by simpa using he
+  simp only [cycleErr, hc]
+  cases ps.contains n <;> rfl
+
+/-- the chain check fires: `m` includes `n` includes `m` -/
 def cyc2 : AList RMacro := [("m", ⟨["n"], [], []⟩), ("n", ⟨["m"], [], []⟩)]
 theorem macro_cycle_detected (f : Nat) :
-    includeMacro (f + 3) cyc2 [] "m" = .error (.macroCycle ["m", "n"] "m") := by
-  rw [includeMacro_succ]
+    pTemplate (f + 4) cyc2 [] (.mk "A" "" ["m"] [] []) = .error (.macroCycle ["m", "n"] "m") := by
+  rw [pTemplate_succ]
   have h1 : cyc2.lookup "m" = some ⟨["n"], [], []⟩ := rfl
   have h2 : cyc2.lookup "n" = some ⟨["m"], [], []⟩ := rfl
+  simp only [RTemplate.incl, mapE]
+  rw [includeMacro_succ]
   simp only [h1, mapE]
+  rw [show cycleErr [] [] "m" = none from rfl]
+  simp only
   rw [includeMacro_succ]
   simp only [h2, mapE]
-  rw [includeMacro_succ]
-  simp only [h1]
+  rw [show cycleErr ([] ++ ["m"]) ([] ++ ["m"]) "n" = none from rfl]
+  simp only
+  rw [macro_cycle_is_error f cyc2 _ _ "m" _ h1 (by decide)]
   rfl
 
-example : ∀ name m, cyc2.lookup name = some m →
-    (∃ own, mapE (pField 0 cyc2) m.fields = .ok own) ∧ (∃ ofr, mapE (fun s => pStmt 0 cyc2 s) m.friends = .ok ofr) := by
-  intro name m h
-  have : m.fields = [] ∧ m.friends = [] := by
-    simp only [cyc2, List.lookup_cons, List.lookup_nil] at h
-    split at h
-    · cases h; exact ⟨rfl, rfl⟩
-    · split at h
-      · cases h; exact ⟨rfl, rfl⟩
-      · cases h
-  rw [this.1, this.2]
-  exact ⟨⟨[], rfl⟩, ⟨[], rfl⟩⟩
-
-/-- **macro_expansion_terminates_refuted** — without the hypothesis on the macro bodies expansion need
-    not terminate: `parse_object_template` restarts the cycle check (`parent_macros=()`), so a macro
-    that reaches itself through a *friend* (or an object-valued field) recurses for ever.  On the code:
-    `RecursionError` (D42). -/
+/-- **macro_nested_cycle_detected** (was `macro_expansion_terminates_refuted` before 97f2c27) — the macro
+    whose friend template includes the macro again is a recipe error for every fuel ≥ 5. -/
 def loopMacros : AList RMacro := [("m", ⟨[], [], [.obj (.mk "X" "" ["m"] [] [])]⟩)]
 
-theorem loop_include : ∀ f, includeMacro f loopMacros [] "m" = .error .fuel := by
-  intro f
-  induction f using Nat.strongRecOn with
-  | ind f ih =>
-    have hl : loopMacros.lookup "m" = some ⟨[], [], [.obj (.mk "X" "" ["m"] [] [])]⟩ := rfl
-    match f with
-    | 0 => rfl
-    | 1 =>
-      rw [includeMacro_succ]
-      simp only [hl, mapE]
-      rw [pStmt_zero]
-      rfl
-    | 2 =>
-      rw [includeMacro_succ]
-      simp only [hl, mapE]
-      rw [pStmt_obj, pTemplate_zero]
-      rfl
-    | f + 3 =>
-      rw [includeMacro_succ]
-      simp only [hl, mapE]
-      rw [pStmt_obj, pTemplate_succ]
-      simp only [RTemplate.incl, mapE]
-      rw [ih f (by omega)]
-      rfl
+theorem macro_nested_cycle_detected (f : Nat) :
+    pTemplate (f + 5) loopMacros [] (.mk "A" "" ["m"] [] []) = .error (.macroNested "m") := by
+  have hl : loopMacros.lookup "m" = some ⟨[], [], [.obj (.mk "X" "" ["m"] [] [])]⟩ := rfl
+  rw [pTemplate_succ]
+  simp only [RTemplate.incl, mapE]
+  rw [includeMacro_succ]
+  simp only [hl, mapE]
+  rw [show cycleErr [] [] "m" = none from rfl]
+  simp only
+  rw [pStmt_obj, pTemplate_succ]
+  simp only [RTemplate.incl, mapE]
+  rw [macro_cycle_is_error f loopMacros _ _ "m" _ hl (by decide)]
+  rfl
 
-theorem macro_expansion_terminates_refuted :
-    ∀ f, pTemplate f loopMacros (.mk "A" "" ["m"] [] []) = .error .fuel := by
-  intro f
-  match f with
-  | 0 => rfl
-  | f + 1 =>
-    rw [pTemplate_succ]
-    simp only [RTemplate.incl, mapE]
-    rw [loop_include f]
+example : (keys loopMacros).length * (maxBody loopMacros + 2) + dTemplate (.mk "A" "" ["m"] [] []) + 2 = 7 := by
+  decide
 
 /-! ## 3. `include_file` -/
 
 /-- **include_prepend** — the statements handed to the interpreter are those of the included files
     (depth first, in the order of the `include_file` lines) followed by the file's own; the macro table
     is updated, and the options are extended, in the same order. -/
-theorem include_prepend (f : Nat) (files : AList (List Item)) (ctx : PCtx) (n : String)
-    (r : List RStmt × PCtx) (h : parseFile f files ctx n = .ok r) :
+theorem include_prepend (f : Nat) (files : AList (List Item)) (stack : List String) (ctx : PCtx) (n : String)
+    (r : List RStmt × PCtx) (h : parseFile f files stack ctx n = .ok r) :
     r.1 = flatOf stmtsOf f files n ∧
     r.2.macros = dictUpdate ctx.macros (flatOf macrosOf f files n) ∧
     r.2.options = ctx.options ++ flatOf optionsOf f files n :=
-  parseFile_spec f files ctx n r h
+  let h' := parseFile_spec f files stack ctx n r h
+  ⟨h'.1, h'.2.1, h'.2.2.1⟩
 
 /-- the depth-first order: everything included first, own declarations last -/
 theorem flatOf_step {β : Type} (sel : List Item → List β) (f : Nat) (files : AList (List Item)) (n : String)
@@ -241,23 +229,23 @@ theorem flatOf_step {β : Type} (sel : List Item → List β) (f : Nat) (files :
     that lists the same file `g` twice gets `g`'s (flattened) statements twice, in order, before its
     own.  Nothing is remembered about files already read; writing the declarations inline would also
     produce them once per inclusion. -/
-theorem include_twice_contributes_twice (f : Nat) (files : AList (List Item)) (ctx : PCtx) (n g : String)
+theorem include_twice_contributes_twice (f : Nat) (files : AList (List Item)) (stack : List String) (ctx : PCtx) (n g : String)
     (items : List Item) (r : List RStmt × PCtx) (hl : files.lookup n = some items)
-    (hi : includesOf items = [g, g]) (h : parseFile (f + 1) files ctx n = .ok r) :
+    (hi : includesOf items = [g, g]) (h : parseFile (f + 1) files stack ctx n = .ok r) :
     r.1 = flatOf stmtsOf f files g ++ flatOf stmtsOf f files g ++ stmtsOf items := by
-  rw [(parseFile_spec (f + 1) files ctx n r h).1, flatOf_step _ _ _ _ _ hl, hi]
+  rw [(parseFile_spec (f + 1) files stack ctx n r h).1, flatOf_step _ _ _ _ _ hl, hi]
   simp [List.flatMap_cons, List.append_assoc]
 
 /-- **diamond_contributes_twice** — two included files `a`, `b` that both include a shared file `s`:
     the statements of `s` appear twice, once in front of each branch (depth first). -/
-theorem diamond_contributes_twice (f : Nat) (files : AList (List Item)) (ctx : PCtx) (n a b s : String)
+theorem diamond_contributes_twice (f : Nat) (files : AList (List Item)) (stack : List String) (ctx : PCtx) (n a b s : String)
     (items ia ib : List Item) (r : List RStmt × PCtx)
     (hl : files.lookup n = some items) (hi : includesOf items = [a, b])
     (hla : files.lookup a = some ia) (hia : includesOf ia = [s])
     (hlb : files.lookup b = some ib) (hib : includesOf ib = [s])
-    (h : parseFile (f + 2) files ctx n = .ok r) :
+    (h : parseFile (f + 2) files stack ctx n = .ok r) :
     r.1 = flatOf stmtsOf f files s ++ stmtsOf ia ++ (flatOf stmtsOf f files s ++ stmtsOf ib) ++ stmtsOf items := by
-  rw [(parseFile_spec (f + 2) files ctx n r h).1, flatOf_step _ _ _ _ _ hl, hi]
+  rw [(parseFile_spec (f + 2) files stack ctx n r h).1, flatOf_step _ _ _ _ _ hl, hi]
   simp only [List.flatMap_cons, List.flatMap_nil, List.append_nil]
   rw [flatOf_step _ _ _ _ _ hla, flatOf_step _ _ _ _ _ hlb, hia, hib]
   simp [List.flatMap_cons, List.append_assoc]
@@ -287,8 +275,8 @@ example :
 /-- **include_position_independent** — only the order *within* each category of declarations
     (include lines, macros, options, versions, statements) matters, not where they stand in a file -/
 theorem include_position_independent (fs gs : AList (List Item)) (h : SameFiles fs gs) (f : Nat)
-    (ctx : PCtx) (n : String) : parseFile f fs ctx n = parseFile f gs ctx n :=
-  parseFile_sameFiles fs gs h f ctx n
+    (stack : List String) (ctx : PCtx) (n : String) : parseFile f fs stack ctx n = parseFile f gs stack ctx n :=
+  parseFile_sameFiles fs gs h f stack ctx n
 
 /-- … in particular an `include_file` line may be moved to the top across declarations of other kinds -/
 theorem move_include_line (a b : List Item) (n : String) (ha : includesOf a = []) :
@@ -303,89 +291,121 @@ theorem move_include_line (a b : List Item) (n : String) (ha : includesOf a = []
 /-- **includer_macro_wins** — a macro defined in a file overrides a same-named macro of the files it
     includes (for *every* template, since expansion happens after all files are read) — exactly as if
     the included declarations had been written inline at the top. -/
-theorem includer_macro_wins (f : Nat) (files : AList (List Item)) (ctx : PCtx) (n : String)
+theorem includer_macro_wins (f : Nat) (files : AList (List Item)) (stack : List String) (ctx : PCtx) (n : String)
     (items : List Item) (r : List RStmt × PCtx) (hl : files.lookup n = some items)
-    (h : parseFile (f + 1) files ctx n = .ok r) (k : String) :
+    (h : parseFile (f + 1) files stack ctx n = .ok r) (k : String) :
     r.2.macros.lookup k = match lastVal (macrosOf items) k with
       | some m => some m
       | none => match lastVal ((includesOf items).flatMap (fun i => flatOf macrosOf f files i)) k with
         | some m => some m
         | none => ctx.macros.lookup k := by
-  rw [(parseFile_spec (f + 1) files ctx n r h).2.1, lookup_dictUpdate, flatOf_step _ _ _ _ _ hl, lastVal_append]
+  rw [(parseFile_spec (f + 1) files stack ctx n r h).2.1, lookup_dictUpdate, flatOf_step _ _ _ _ _ hl, lastVal_append]
   cases lastVal (macrosOf items) k <;>
     cases lastVal ((includesOf items).flatMap (fun i => flatOf macrosOf f files i)) k <;> rfl
 
-/-- **flatten_terminates** — under acyclic inclusion (a rank that decreases along `include_file`)
-    flattening never runs out of fuel `rank + 1`. -/
-theorem flatten_terminates (files : AList (List Item)) (rk : String → Nat)
-    (hrk : ∀ name items, files.lookup name = some items → ∀ i ∈ includesOf items, rk i < rk name)
-    (f : Nat) (ctx : PCtx) (name : String) (hf : rk name < f) :
-    parseFile f files ctx name ≠ .error .fuel :=
-  parseFile_no_fuel files rk hrk f ctx name hf
+/-- **flatten_terminates** (full strength since the repair of D45) — for *every* file map, reading a
+    recipe ends within fuel `#files + 2`: it succeeds or reports a recipe error (`noFile`,
+    `includeCycle`, version errors); no acyclicity hypothesis. -/
+theorem flatten_terminates (files : AList (List Item)) (ctx : PCtx) (name : String) (f : Nat)
+    (hf : (keys files).length + 2 ≤ f) : parseFile f files [] ctx name ≠ .error .fuel :=
+  parseFile_no_fuel files f [] ctx name List.nodup_nil (by simp) (by simpa using hf)
 
-/-- **flatten_terminates_refuted** — file inclusion has no cycle check: two files that include each
-    other are never finished (on the code: `RecursionError`, D41). -/
+/-- **include_cycle_is_error** — a file that is still open (on the stack of files being parsed) is not
+    read again: the include line is `includeCycle`.  The stack is popped when a file has been read, so
+    reaching a file a second time from elsewhere (twice, diamonds) stays legal — see
+    `include_twice_contributes_twice`, `diamond_contributes_twice` above, which hold for every stack. -/
+theorem include_cycle_is_error (f : Nat) (files : AList (List Item)) (stack : List String) (ctx : PCtx)
+    (name g : String) (items : List Item) (hl : files.lookup name = some items)
+    (hi : includesOf items = [g]) (hg : g ∈ stack) :
+    parseFile (f + 1) files stack ctx name = .error (.includeCycle g) := by
+  have hc : stack.contains g = true := by simpa using hg
+  rw [parseFile_succ, hl]
+  simp only [hi, foldE, incStep, hc, if_true]
+
+/-- **include_cycle_detected** (was `flatten_terminates_refuted` before 70277f6) — two files that include
+    each other: a recipe error for every fuel ≥ 3 (the main file is not on the stack, so it is read a
+    second time before the cycle is seen, as on the code). -/
 def cycFiles : AList (List Item) := [("a", [.includeFile "b"]), ("b", [.includeFile "a"])]
 
-theorem flatten_terminates_refuted :
-    ∀ f ctx, parseFile f cycFiles ctx "a" = .error .fuel ∧ parseFile f cycFiles ctx "b" = .error .fuel := by
-  intro f
-  induction f with
-  | zero => intro ctx; exact ⟨rfl, rfl⟩
-  | succ f ih =>
-    intro ctx
-    have ha : cycFiles.lookup "a" = some [.includeFile "b"] := rfl
-    have hb : cycFiles.lookup "b" = some [.includeFile "a"] := rfl
-    constructor
-    · rw [parseFile_succ]
-      simp only [ha, includesOf, foldE, incStep, (ih ctx).2]
-    · rw [parseFile_succ]
-      simp only [hb, includesOf, foldE, incStep, (ih ctx).1]
+theorem include_cycle_detected (f : Nat) (ctx : PCtx) :
+    parseFile (f + 3) cycFiles [] ctx "a" = .error (.includeCycle "b") := by
+  have ha : cycFiles.lookup "a" = some [.includeFile "b"] := rfl
+  have hb : cycFiles.lookup "b" = some [.includeFile "a"] := rfl
+  rw [parseFile_succ]
+  simp only [ha, includesOf, foldE, incStep]
+  rw [show ([] : List String).contains "b" = false from rfl]
+  simp only [Bool.false_eq_true, if_false]
+  rw [parseFile_succ]
+  simp only [hb, includesOf, foldE, incStep]
+  rw [show ([] ++ ["b"] : List String).contains "a" = false from rfl]
+  simp only [Bool.false_eq_true, if_false]
+  rw [include_cycle_is_error f cycFiles _ _ "a" "b" _ ha rfl (by decide)]
 
-example : ∃ rk : String → Nat, ∀ name items,
-    ([("main", [Item.includeFile "a", .version 3]), ("a", [.version 3])] : AList (List Item)).lookup name = some items →
-    ∀ i ∈ includesOf items, rk i < rk name := by
-  refine ⟨fun s => if s = "main" then 1 else 0, ?_⟩
-  intro name items h i hi
-  simp only [List.lookup_cons, List.lookup_nil] at h
-  split at h
-  · cases h
-    rename_i hn
-    have : name = "main" := by simpa using hn
-    subst this
-    simp only [includesOf, List.mem_cons, List.not_mem_nil, or_false] at hi
-    subst hi
-    decide
-  · split at h
-    · cases h; simp [includesOf] at hi
-    · cases h
+example : (keys cycFiles).length + 2 = 4 := rfl
 
-/-- **include_version_transparent_refuted** — `snowfakery_version` is *not* pulled in: a version
-    declared only in the included file is lost (the includer's `parse_version([])` overwrites it),
-    whereas writing the declaration inline keeps it (D43). -/
-theorem include_version_transparent_refuted :
+/-- **include_version_honoured** (full strength since the repair of D47; was
+    `include_version_transparent_refuted`) — after a successful parse every `snowfakery_version`
+    declared in *any* of the files read (depth first) is the version of the recipe; a version the
+    context already had is kept; and if no file declares one the version is unchanged. -/
+theorem include_version_honoured (f : Nat) (files : AList (List Item)) (stack : List String) (ctx : PCtx)
+    (n : String) (r : List RStmt × PCtx) (h : parseFile f files stack ctx n = .ok r) :
+    (∀ v ∈ flatOf versionsOf f files n, r.2.version = some v) ∧
+    (∀ w, ctx.version = some w → r.2.version = some w) ∧
+    (flatOf versionsOf f files n = [] → r.2.version = ctx.version) :=
+  (parseFile_spec f files stack ctx n r h).2.2.2
+
+/-- … in particular conflicting declarations in different files cannot both survive: a successful parse
+    means all declared versions agree -/
+theorem include_versions_agree (f : Nat) (files : AList (List Item)) (stack : List String) (ctx : PCtx)
+    (n : String) (r : List RStmt × PCtx) (h : parseFile f files stack ctx n = .ok r)
+    (v w : Int) (hv : v ∈ flatOf versionsOf f files n) (hw : w ∈ flatOf versionsOf f files n) : v = w := by
+  have h1 := (include_version_honoured f files stack ctx n r h).1 v hv
+  have h2 := (include_version_honoured f files stack ctx n r h).1 w hw
+  rw [h1] at h2
+  exact Option.some.inj h2
+
+/-- the former D47 witness: declared only in the included file, or written inline — the same version;
+    a conflict between files is the same error as a conflict inside one file -/
+theorem include_version_transparent :
     (parseRecipe 5 [("main", [.includeFile "a", .stmt (.obj (.mk "A" "" [] [] []))]), ("a", [.version 3])] "main").map
-        (·.version) = .ok none ∧
+        (·.version) = .ok (some 3) ∧
     (parseRecipe 5 [("main", [.version 3, .stmt (.obj (.mk "A" "" [] [] []))])] "main").map (·.version)
-        = .ok (some 3) := by
-  constructor <;> decide
+        = .ok (some 3) ∧
+    (parseRecipe 5 [("main", [.includeFile "a", .version 2]), ("a", [.version 3])] "main").map (·.version)
+        = .error .versionConflict ∧
+    (parseRecipe 5 [("main", [.version 3, .version 2])] "main").map (·.version) = .error .versionConflict := by
+  refine ⟨?_, ?_, ?_, ?_⟩ <;> decide
 
-/-- what the version is: the one declared by the file itself (`parse_version` of its own declarations) -/
-theorem version_is_own (f : Nat) (files : AList (List Item)) (ctx : PCtx) (n : String) (items : List Item)
-    (r : List RStmt × PCtx) (hl : files.lookup n = some items)
-    (h : parseFile (f + 1) files ctx n = .ok r) : parseVersion (versionsOf items) = .ok r.2.version := by
-  rw [parseFile_succ, hl] at h
-  simp only at h
-  cases hf : foldE (incStep f files) ([], ctx) (includesOf items) with
-  | error e => rw [hf] at h; cases h
-  | ok r1 =>
-    rw [hf] at h
-    cases hv : parseVersion (versionsOf items) with
-    | error e => rw [hv] at h; cases h
-    | ok v =>
-      rw [hv] at h
-      simp only [Except.ok.injEq] at h
-      rw [← h]
+/-- **parse_recipe_terminates** — the whole front end: with fuel for the files (`#files + 2`) and for
+    the statements it hands on (`#macros · (deepest body + 2) + depth + 2`), `parse_recipe` never runs out
+    of fuel: every recipe — whatever includes what, files or macros — is either parsed or rejected with a
+    recipe error. -/
+theorem parse_recipe_terminates (fuel : Nat) (files : AList (List Item)) (main : String)
+    (h1 : (keys files).length + 2 ≤ fuel)
+    (h2 : ∀ stmts ctx, parseFile fuel files [] PCtx.empty main = .ok (stmts, ctx) →
+      ∀ s ∈ stmts, (keys ctx.macros).length * (maxBody ctx.macros + 2) + dStmt s + 2 ≤ fuel) :
+    parseRecipe fuel files main ≠ .error .fuel := by
+  unfold parseRecipe
+  cases hp : parseFile fuel files [] PCtx.empty main with
+  | error e =>
+    simp only
+    intro he
+    simp only [Except.error.injEq] at he
+    subst he
+    exact flatten_terminates files PCtx.empty main fuel h1 hp
+  | ok r =>
+    obtain ⟨stmts, ctx⟩ := r
+    simp only
+    have hm : mapE (fun s => pStmt fuel ctx.macros [] s) stmts ≠ .error .fuel :=
+      mapE_ne_fuel _ _ (fun s hs => statement_expansion_terminates ctx.macros s fuel (h2 stmts ctx hp s hs))
+    cases hq : mapE (fun s => pStmt fuel ctx.macros [] s) stmts with
+    | error e =>
+      simp only
+      intro he
+      simp only [Except.error.injEq] at he
+      subst he
+      exact hm hq
+    | ok ps => simp
 
 /-! ## 4. Options -/
 
